@@ -197,7 +197,8 @@ package server
 //@ ensures[C08] stopped: emitted(Gate(_, PauseStateStopped, _, _)) ==> result && emitted(ErrResp(w, 503, _))
 //@ ensures[C08] stop_message: old(hasErrResp(r)) && emitted(ErrResp(w, 503, _)) ==> emitted(Gate(_, _, PauseWaitActionStopped, unbox(errResp(r).TemplateArguments, `struct{Message string}`).Message))
 //@ ensures[C07,C02] proceeds_silently: !result ==> none(ErrResp) && none(WriteHeader) && emitted(Gate(_, _, PauseWaitActionProceed, _))
-//@ ensures[C07,C08] answers_once: result ==> count(ErrResp(_, _, _)) + count(WriteHeader(_, _)) == 1
+//@ ensures[C07,C08,C15,C19] answers_once: result ==> count(ErrResp(_, _, _)) + count(WriteHeader(_, _)) == 1
+//@ ensures[C07,C02,C19] a_released_request_is_forwarded: emitted(Gate(_, _, PauseWaitActionProceed, _)) ==> !result
 //@ ensures[C07] timeout_is_504: emitted(ErrResp(w, 504, _)) <==> emitted(Gate(_, _, PauseWaitActionTimedOut, _))
 //@ ensures[C07,C08] stop_is_503: emitted(ErrResp(w, 503, _)) <==> emitted(Gate(_, _, PauseWaitActionStopped, _))
 //@ ensures[C07,C08] never_forwards: none(Forward) && none(LBServe) && only(ErrResp, WriteHeader, Gate, Lock, Unlock)
@@ -218,7 +219,7 @@ package server
 //@ ensures[C09,C01,C02] rotation: len(old(lb.healthy)) > 0 ==> lb.index == (old(lb.index) + 1) % len(old(lb.healthy)) && result0 == old(lb.healthy)[lb.index]
 //@ ensures[C02,C03] only_draining_refuses: len(old(lb.healthy)) > 0 && err != nil ==> err == ErrorDraining
 //@ ensures[C09,C15] request_registered: err == nil ==> targetWF(result0) && result1 != nil && haskey(result0.inflight, result1) && origin(result1) == origin(req) && (ctxWF(req) ==> ctxWF(result1))
-//@ ensures[C18] lock_free: !held(lb.lock)
+//@ ensures[C18,C09,C02,C15] lock_free: !held(lb.lock)
 
 //@ func (*server.LoadBalancer).ServeHTTP
 //@ may_emit *
@@ -236,7 +237,7 @@ package server
 //@ assigns *
 //@ ensures[C16] redirects_plain_http: old(s.options.TLSEnabled) && old(s.options.TLSRedirect) && old(r.TLS) == nil ==> count(RedirectHTTPS(_, _)) == 1 && none(LBServe) && none(Gated) && none(ErrResp) && none(PickLB) && now == old(now)
 //@ ensures[C16] refuses_tls_when_disabled: !old(s.options.TLSEnabled) && old(r.TLS) != nil ==> emitted(ErrResp(w, 503, _)) && none(LBServe) && none(Gated) && none(RedirectHTTPS) && none(PickLB) && now == old(now)
-//@ ensures[C07,C16,C03] gate_before_pick: first(Gated(_, false), PickLB(_, _)) && first(PickLB(_, _), LBServe(_, _, _))
+//@ ensures[C07,C16,C03,C10,C08] gate_before_pick: first(Gated(_, false), PickLB(_, _)) && first(PickLB(_, _), LBServe(_, _, _))
 //@ ensures[C07,C08] forwards_only_when_released: emitted(LBServe(_, _, _)) ==> emitted(Gated(_, false)) && none(ErrResp) && none(RedirectHTTPS)
 //@ ensures[C07,C08] gated_requests_go_no_further: emitted(Gated(_, true)) ==> none(LBServe) && none(PickLB)
 //@ ensures[C10,C02] serves_picked_balancer: count(LBServe(_, _, _)) <= 1 && count(PickLB(_, _)) <= 1
@@ -303,6 +304,7 @@ package server
 //@ func (*server.Target).updateState
 //@ requires state == TargetStateAdding ==> !everHealthy(t)
 //@ assigns t.state, everHealthy(t)
+//@ emits SetState(t, state)
 //@ ensures[C03,C09] sets: t.state == state && result == old(t.state)
 //@ ensures[C01] ever_healthy: everHealthy(t) == (old(everHealthy(t)) || state == TargetStateHealthy)
 //@ ensures[C01] adding_was_never_healthy: result == TargetStateAdding ==> !old(everHealthy(t))
@@ -340,7 +342,7 @@ package server
 //@ func server.NewHealthCheck
 //@ requires endpoint != nil && !isnil(consumer)
 //@ assigns nothing
-//@ ensures[C09,C17] built: fresh(result) && hcWF(result) && result.consumer == consumer && result.endpoint == endpoint && result.interval == interval && result.timeout == timeout && !closed(ctxDone(payload(result.ctx)))
+//@ ensures[C01,C09,C17] built: fresh(result) && hcWF(result) && result.consumer == consumer && result.endpoint == endpoint && result.interval == interval && result.timeout == timeout && !closed(ctxDone(payload(result.ctx)))
 //@ emits NewHealthCheck(result, consumer)
 
 //@ func (*server.Target).stopHealthChecks
@@ -387,6 +389,7 @@ package server
 
 //@ func (*server.Target).pendingRequestsToCancel
 //@ assigns nothing
+//@ emits InflightSnapshot(t)
 //@ ensures[C03] snapshot_of_inflight: result != nil && fresh(result) && forall k `*net/http.Request` :: haskey(result, k) == haskey(t.inflight, k) && (haskey(result, k) ==> result[k] == t.inflight[k] && result[k] != nil && result[k].cancel != nil)
 //@ ensures[C18] lock_free: !held(t.inflightLock)
 //@ loop 1 invariant copied_so_far: forall i int :: 0 <= i && i < idx ==> haskey(result, keys[i]) && result[keys[i]] == coll[keys[i]]
@@ -396,7 +399,7 @@ package server
 //@ loop 1 invariant result_fresh: fresh(result)
 
 //@ func (*server.Target).Drain
-//@ may_emit Cancel
+//@ may_emit Cancel, SetState, InflightSnapshot
 //@ requires everHealthy(t)
 //@ attr blocks
 //@ assigns t.state, everHealthy(t), cancelled, closed
@@ -405,6 +408,7 @@ package server
 //@ ensures[C03,C02] cut_off_only_at_deadline: old(t.state) != TargetStateDraining ==> (forall k `*net/http.Request` :: old(haskey(t.inflight, k)) ==> reqDone(k)) || now >= old(now) + max(timeout, 0)
 //@ ensures[C03,C07,C08] state_restored_when_the_drain_ends: t.state != TargetStateDraining || now == old(now)
 //@ ensures[C03,C17] overlapping_drain_returns_at_once: old(t.state) == TargetStateDraining ==> now == old(now)
+//@ ensures[C03,C02,C07,C08] new_requests_are_refused_before_the_running_ones_are_listed: first(SetState(t, TargetStateDraining), InflightSnapshot(t)) && count(InflightSnapshot(t)) <= 1
 //@ ensures[C18] lock_free: !held(t.inflightLock)
 //@ emits DrainTarget(t, timeout)
 //@ loop 1 invariant[C03,C07,C08] upgraded_connections_first: forall k `*net/http.Request` :: haskey(toCancel, k) && !toCancel[k].hijacked ==> sameCancelled(toCancel[k].cancel)
@@ -419,7 +423,7 @@ package server
 //@ loop 3 invariant snapshot: forall k `*net/http.Request` :: haskey(toCancel, k) == old(haskey(t.inflight, k)) && (haskey(toCancel, k) ==> toCancel[k] == old(t.inflight[k]) && toCancel[k] != nil && toCancel[k].cancel != nil)
 
 //@ func (*server.LoadBalancer).DrainAll$1
-//@ may_emit Cancel, DrainTarget
+//@ may_emit Cancel, DrainTarget, SetState, InflightSnapshot
 //@ attr forkjoin = target
 //@ attr blocks
 //@ requires target != nil && everHealthy(target)
@@ -677,7 +681,7 @@ package server
 //@ requires s.active != nil
 //@ attr blocks
 //@ assigns Target.state, everHealthy, cancelled, closed
-//@ may_emit DrainAll, Cancel, DrainTarget
+//@ may_emit DrainAll, Cancel, DrainTarget, SetState, InflightSnapshot
 //@ ensures[C03,C07,C08] both_slots_drained: count(DrainAll(_, timeout)) >= 1 && all(DrainAll, $1 == timeout) && (old(s.rollout) != nil ==> count(DrainAll(_, _)) == 2)
 //@ ensures[C03,C17] bounded_by_drain_timeout: now <= old(now) + max(timeout, 0)
 //@ emits DrainService(s, timeout)
@@ -794,6 +798,7 @@ package server
 //@ attr blocks
 //@ assigns b.reader, @writerFrame
 //@ may_emit Copy
+//@ ensures[C13,C14,C15] the_body_goes_out_through_one_copy_from_the_reader: count(Copy(_, _)) == 1 && all(Copy, $0 == payload(w))
 //@ emits SendBuffer(b, w)
 
 //@ func (*server.bufferedResponseWriter).ShouldSwitchToUnbuffered
@@ -941,11 +946,12 @@ package server
 //@ attr unpublished = p
 //@ assigns *
 //@ may_emit *
-//@ ensures[C07,C11] restored_controller_is_well_formed: err == nil ==> pauseInv(p)
+//@ ensures[C07,C08,C11,C18] restored_controller_is_well_formed: err == nil ==> pauseInv(p)
 
 //@ func (*server.LoadBalancer).MarkAllHealthy
 //@ requires forall i int :: 0 <= i && i < len(lb.all) ==> targetWF(lb.all[i]) && lb.all[i].becameHealthy != nil
 //@ assigns Target.state, everHealthy, lb.healthy
+//@ may_emit SetState
 //@ ensures[C11] restored_targets_presumed_healthy: lbReady(lb) && forall i int :: 0 <= i && i < len(lb.all) ==> lb.all[i].state == TargetStateHealthy
 //@ ensures[C11,C09] all_in_rotation: len(lb.healthy) <= len(lb.all) && forall i int :: 0 <= i && i < len(lb.all) ==> (exists j int :: 0 <= j && j < len(lb.healthy) && lb.healthy[j] == lb.all[i])
 //@ loop 1 invariant marked_so_far: forall i int :: 0 <= i && i < idx ==> coll[i].state == TargetStateHealthy && everHealthy(coll[i])
@@ -958,6 +964,7 @@ package server
 //@ assigns nothing
 //@ may_emit JsonMarshal, MarshalService
 //@ ensures[C11,C12,C07,C08,C10] everything_observable_is_persisted: count(JsonMarshal(_)) == 1 && all(JsonMarshal, boxed($0, `marshalledService`).Name == s.name && boxed($0, `marshalledService`).Options == s.options && boxed($0, `marshalledService`).TargetOptions == s.targetOptions && boxed($0, `marshalledService`).PauseController == s.pauseController && boxed($0, `marshalledService`).RolloutController == s.rolloutController)
+//@ ensures[C11,C12,C09,C01] every_configured_target_is_recorded_whatever_its_health: all(JsonMarshal, len(boxed($0, `marshalledService`).ActiveTargets) == len(s.active.all) && (forall i int :: 0 <= i && i < len(s.active.all) ==> boxed($0, `marshalledService`).ActiveTargets[i] == s.active.all[i].targetURL.Host) && (s.rollout != nil ==> len(boxed($0, `marshalledService`).RolloutTargets) == len(s.rollout.all) && forall i int :: 0 <= i && i < len(s.rollout.all) ==> boxed($0, `marshalledService`).RolloutTargets[i] == s.rollout.all[i].targetURL.Host))
 //@ ensures[C11,C12,C10] rollout_targets_only_when_present: all(JsonMarshal, s.rollout == nil ==> isnil(boxed($0, `marshalledService`).RolloutTargets))
 //@ emits MarshalService(s)
 
@@ -983,7 +990,7 @@ package server
 //@ emits CheckAvail(m, name)
 //@ requires tableWF(m)
 //@ assigns nothing
-//@ ensures[C05,C04] free_means_no_other_owner: result == nil ==> forall hi int, pi int :: 0 <= hi && hi < len(options.Hosts) && 0 <= pi && pi < len(options.PathPrefixes) ==> !ownedByOther(m, options.Hosts[hi], options.PathPrefixes[pi], name)
+//@ ensures[C05,C04,C06] free_means_no_other_owner: result == nil ==> forall hi int, pi int :: 0 <= hi && hi < len(options.Hosts) && 0 <= pi && pi < len(options.PathPrefixes) ==> !ownedByOther(m, options.Hosts[hi], options.PathPrefixes[pi], name)
 //@ ensures[C05,C04] conflict_names_another_owner: result != nil ==> result.name != name && exists hi int, pi int, bi int :: 0 <= hi && hi < len(options.Hosts) && 0 <= pi && pi < len(options.PathPrefixes) && haskey(m.requestServiceMap, options.Hosts[hi]) && 0 <= bi && bi < len(m.requestServiceMap[options.Hosts[hi]]) && m.requestServiceMap[options.Hosts[hi]][bi].service == result && m.requestServiceMap[options.Hosts[hi]][bi].pathPrefix == options.PathPrefixes[pi]
 //@ loop 1 invariant[C05] hosts_checked: forall hi int, pi int :: 0 <= hi && hi < idx && 0 <= pi && pi < len(options.PathPrefixes) ==> !ownedByOther(m, coll[hi], options.PathPrefixes[pi], name)
 //@ loop 1 invariant same: coll == options.Hosts && idx <= len(coll)
@@ -1028,15 +1035,17 @@ package server
 //@ func (*server.Router).serviceForName
 //@ requires r.services != nil
 //@ assigns nothing
+//@ emits ServiceLookup(r, name, result)
 //@ ensures[C06] by_name_under_the_read_lock: result != nil ==> result.name == name && result.active != nil && result.pauseController != nil && !isnil(result.middleware)
 //@ ensures[C18] lock_free: !held_r(r.serviceLock)
 
 //@ func (*server.Router).findOrCreateService
 //@ requires r.services != nil
 //@ assigns nothing
-//@ may_emit LoadCert, ParseTemplates, ErrorPages
+//@ may_emit LoadCert, ParseTemplates, ErrorPages, ServiceLookup
 //@ ensures[C06] validation_failures_create_nothing: err != nil ==> none(NewLB) && none(NewHealthCheck)
 //@ ensures[C06,C07,C08,C05] works_on_a_copy: err == nil ==> result0 != nil && fresh(result0) && result0.name == name && result0.pauseController != nil && !isnil(result0.middleware)
+//@ ensures[C02,C03,C06,C07,C08,C10,C17] an_installed_service_is_copied_with_its_runtime_state: err == nil ==> count(ServiceLookup(_, _, _)) == 1 && all(ServiceLookup, $2 == nil || (result0.active == as($2, `*Service`).active && result0.rollout == as($2, `*Service`).rollout && result0.pauseController == as($2, `*Service`).pauseController && result0.rolloutController == as($2, `*Service`).rolloutController))
 
 //@ func (*server.Router).DeployService
 //@ emits CmdDeploy(r, name, deployTimeout, drainTimeout, isnil(result))
@@ -1068,7 +1077,7 @@ package server
 //@ requires r.services != nil
 //@ attr blocks
 //@ assigns Service.rolloutController, `os.File`.content
-//@ may_emit Snapshot, RolloutSplit, ListServices, CreateTemp, JsonEncode, JsonEncoded, FileClose, FileClosed, FsRename, FileRemove, MarshalService, FsTruncate
+//@ may_emit ServiceLookup, Snapshot, RolloutSplit, ListServices, CreateTemp, JsonEncode, JsonEncoded, FileClose, FileClosed, FsRename, FileRemove, MarshalService, FsTruncate
 //@ ensures[C06,C10] unknown_service_rejected: none(RolloutSplit) ==> err == ErrorServiceNotFound
 //@ ensures[C12,C11,C03,C05,C06,C07,C08,C10] snapshot_taken: last_is(Snapshot(r))
 //@ ensures[C17] returns_without_waiting: now == old(now)
@@ -1078,7 +1087,7 @@ package server
 //@ requires r.services != nil
 //@ attr blocks
 //@ assigns Service.rolloutController, `os.File`.content
-//@ may_emit Snapshot, RolloutSplit, RolloutStopped, ListServices, CreateTemp, JsonEncode, JsonEncoded, FileClose, FileClosed, FsRename, FileRemove, MarshalService, FsTruncate
+//@ may_emit ServiceLookup, Snapshot, RolloutSplit, RolloutStopped, ListServices, CreateTemp, JsonEncode, JsonEncoded, FileClose, FileClosed, FsRename, FileRemove, MarshalService, FsTruncate
 //@ ensures[C12,C11,C03,C05,C06,C07,C08,C10] snapshot_taken: last_is(Snapshot(r))
 //@ ensures[C06,C10] unknown_service_rejected: none(RolloutStopped) ==> err == ErrorServiceNotFound
 //@ ensures[C17] returns_without_waiting: now == old(now)
@@ -1150,6 +1159,7 @@ package server
 //@ attr blocks
 //@ assigns *
 //@ may_emit *
+//@ ensures[C08,C13,C15,C16] every_request_goes_through_the_services_own_handler_chain: count(Forward(_, _, _)) == 1 && emitted(Forward(old(s.middleware), w, r))
 //@ emits ServiceServe(s, w, r, old(r.URL.Path), old(r.Host))
 
 //@ func (*server.Router).serviceForRequest
@@ -1340,3 +1350,16 @@ package server
 //@ assigns @flushFrame
 //@ may_emit Flush
 //@ ensures[C13,C14] only_an_unbuffered_stream_is_flushed: count(Flush(_)) <= 1 && all(Flush, $0 == payload(old(w.ResponseWriter)) && old(w.bypass))
+
+//@ func (*server.Server).Start
+//@ requires s.config != nil && s.router != nil
+//@ attr blocks
+//@ assigns *
+//@ may_emit *
+//@ ensures[C11,C12,C06] starting_up_writes_no_state: none(Snapshot) && none(FsRename) && none(FileRemove) && none(CmdRemove) && none(CmdDeploy) && none(CmdStop) && none(CmdPause) && none(CmdResume)
+
+//@ func (*server.Server).startCommandHandler
+//@ attr blocks
+//@ assigns *
+//@ may_emit *
+//@ ensures[C11,C12] only_the_stale_socket_is_removed: count(FileRemove(_)) == 1 && none(Snapshot) && none(FsRename) && none(FsTruncate)
